@@ -240,8 +240,11 @@ type VC struct {
 	epochs   int
 	declared map[string]bool
 	specErrs []string
+	inSpec   int // >0 while a specification expression is evaluated: no auxiliary constants, so that
+	// the same clause evaluated twice in the same state yields syntactically identical formulas
 	inQuant  int
 	proveCache map[string]bool
+	seenAssume map[string]int
 }
 
 func newVC(eng *Engine, funcKey string) *VC {
@@ -278,7 +281,7 @@ func (vc *VC) declare(hint string, s Sort) string {
 
 func (vc *VC) define(hint string, s Sort, term string) string {
 	// avoid re-defining plain symbols / literals
-	if !strings.ContainsAny(term, "( ") || vc.inQuant > 0 {
+	if !strings.ContainsAny(term, "( ") || vc.inQuant > 0 || vc.inSpec > 0 {
 		return term
 	}
 	n := vc.fresh(hint)
@@ -292,6 +295,14 @@ func (vc *VC) assume(guard, fact string) {
 	if fact == "true" || guard == "false" || vc.inQuant > 0 {
 		return
 	}
+	line := "(assert " + implies(guard, fact) + ")"
+	if vc.seenAssume == nil {
+		vc.seenAssume = map[string]int{}
+	}
+	if at, ok := vc.seenAssume[line]; ok && at <= len(vc.lines) && at > 0 && vc.lines[at-1] == line {
+		return // identical fact already stated earlier
+	}
+	vc.seenAssume[line] = len(vc.lines) + 1
 	vc.lines = append(vc.lines, "(assert "+implies(guard, fact)+")")
 }
 
